@@ -115,18 +115,15 @@ theorem setEupsPath_spec (isdir : Str → Bool) (path : Str) (dbz : Option Str) 
         refine ⟨p, hp, hd, rfl, ?_⟩
         intro z' hz' hne; cases hz'; rw [hz] at hne; cases hne
       · rintro ⟨p, hp, hd, rfl, _⟩; exact ⟨p, ⟨hp, hd⟩, rfl⟩
-    · simp only [hz, Bool.false_eq_true, if_false] at h
-      split at h
-      · cases h
-      · simp only [Except.ok.injEq] at h
-        subst h
-        refine ⟨nodup_uniqDirs _ _, fun x => ?_⟩
-        simp only [mem_uniqDirs, List.mem_map, List.mem_filter, List.not_mem_nil, not_false_eq_true, and_true]
-        constructor
-        · rintro ⟨p, ⟨⟨hp, hm⟩, hd⟩, rfl⟩
-          refine ⟨p, hp, hd, rfl, ?_⟩
-          intro z' hz' _; cases hz'; exact hm
-        · rintro ⟨p, hp, hd, rfl, hm⟩
-          exact ⟨p, ⟨⟨hp, hm z rfl (by simpa using hz)⟩, hd⟩, rfl⟩
+    · simp only [hz, Bool.false_eq_true, if_false, Except.ok.injEq] at h
+      subst h
+      refine ⟨nodup_uniqDirs _ _, fun x => ?_⟩
+      simp only [mem_uniqDirs, List.mem_map, List.mem_filter, List.not_mem_nil, not_false_eq_true, and_true]
+      constructor
+      · rintro ⟨p, ⟨⟨hp, hm⟩, hd⟩, rfl⟩
+        refine ⟨p, hp, hd, rfl, ?_⟩
+        intro z' hz' _; cases hz'; exact hm
+      · rintro ⟨p, hp, hd, rfl, hm⟩
+        exact ⟨p, ⟨⟨hp, hm z rfl (by simpa using hz)⟩, hd⟩, rfl⟩
 
 end EupsModel.Vro
